@@ -274,7 +274,7 @@ class PassiveState(State):
         if self._is_postselected():
             return np.sum(self.fock_probabilities)
 
-        return np.sum(np.abs(self._coefficients) ** 2)
+        return np.sum(np.abs(np.array(self._coefficients)) ** 2)
 
     def normalize(self) -> None:
         """Normalizes the state.
